@@ -196,7 +196,11 @@ pub(crate) fn validate_source(s: &str) -> bool {
 }
 
 pub(crate) fn validate_username(username: &str) -> Result<(), ValidationError> {
-    if !username.is_empty() && (username.as_bytes()[0] == b'#' || username.as_bytes()[0] == b'&') {
+    if username.is_empty() || username.contains(|c: char| c.is_ascii_whitespace()) {
+        Err(ValidationError::new(
+            "Username must not be empty or contain whitespaces.",
+        ))
+    } else if username.as_bytes()[0] == b'#' || username.as_bytes()[0] == b'&' {
         Err(ValidationError::new(
             "Username must not have channel prefix.",
         ))
@@ -213,6 +217,7 @@ pub(crate) fn validate_channel(channel: &str) -> Result<(), ValidationError> {
     if !channel.is_empty()
         && !channel.contains(':')
         && !channel.contains(',')
+        && !channel.contains(|c: char| c.is_ascii_whitespace())
         && (channel.as_bytes()[0] == b'#' || channel.as_bytes()[0] == b'&')
     {
         Ok(())
@@ -241,7 +246,11 @@ pub(crate) fn validate_server_mask<E: Error>(s: &str, e: E) -> Result<(), E> {
 }
 
 pub(crate) fn validate_prefixed_channel<E: Error>(channel: &str, e: E) -> Result<(), E> {
-    if !channel.is_empty() && !channel.contains(':') && !channel.contains(',') {
+    if !channel.is_empty()
+        && !channel.contains(':')
+        && !channel.contains(',')
+        && !channel.contains(|c: char| c.is_ascii_whitespace())
+    {
         let mut is_channel = false;
         let mut last_amp = false;
         for (i, c) in channel.bytes().enumerate() {
